@@ -17,16 +17,11 @@ use crate::l7_boxed_div::*;
 use crate::l8_boxed_methods::*;
 use crate::l8_boxed_pow::*;
 use crate::l8_boxed_monty::*;
+use crate::l8_boxed_safegcd::SG_BOXED_MAX_SAT;
 verus! {
 
-pub trait Inverter {
-    type Output;
-    spec fn invert_vartime_req(&self, value: &Self::Output) -> bool;
-    spec fn invert_vartime_ens(&self, value: &Self::Output, r: CtOption<Self::Output>) -> bool;
-    fn invert_vartime(&self, value: &Self::Output) -> (r: CtOption<Self::Output>)
-        requires self.invert_vartime_req(value)
-        ensures self.invert_vartime_ens(value, r);
-}
+// `trait Inverter` (method `invert_vartime`) and its PROVED impl for BoxedSafeGcdInverter: l8_boxed_safegcd_top2.rs
+pub use crate::l8_boxed_safegcd_top2::Inverter;
 pub trait Invert: Sized {
     type Output;
     spec fn invert_vartime_req(&self) -> bool;
@@ -44,21 +39,6 @@ pub trait MontyMultiplier<'a> {
         ensures old(self).square_assign_ens(old(lhs), final(self), final(lhs));
 }
 
-//@@ fn src/modular/safegcd/boxed.rs | impl Inverter for BoxedSafeGcdInverter | invert_vartime | stub | props C10 C15 C11
-impl Inverter for BoxedSafeGcdInverter {
-//@+
-    type Output = BoxedUint;
-    // ASSUMED (Bernstein-Yang `divsteps_vartime`): same contract as the constant-time `invert` (l8_boxed_monty.rs)
-    open spec fn invert_vartime_req(&self, value: &BoxedUint) -> bool { value.wf() && value.nl() == self.nl() }
-    open spec fn invert_vartime_ens(&self, value: &BoxedUint, r: CtOption<BoxedUint>) -> bool { sgi_invert_post(self, value, r) }
-//@-
-#[verifier::external_body]
-fn invert_vartime(&self, value: &BoxedUint) -> (ret__: CtOption<Self::Output>)
-{
-    unimplemented!()
-}
-}
-//@@ end
 //@@ fn src/modular/boxed_monty_form/inv.rs | impl Inverter for BoxedMontyFormInverter | invert_vartime | body | props C10 C08 C15 C11
 impl Inverter for BoxedMontyFormInverter {
 //@+
@@ -85,6 +65,7 @@ fn invert_vartime(&self, value: &BoxedMontyForm) -> (ret__: CtOption<Self::Outpu
         let montgomery_form2 = value.montgomery_form.clone();
 //@+
     proof {
+        lemma_sgi_invert_post(&self.inverter, &value.montgomery_form, montgomery_form);
         if is_some.t() {
             lemma_inv_repr(montgomery_form.value.v(), t, value.params.r2.v(), m, n);
         }
@@ -102,7 +83,8 @@ fn invert_vartime(&self, value: &BoxedMontyForm) -> (ret__: CtOption<Self::Outpu
 impl BoxedMontyForm {
 pub fn invert_vartime(&self) -> (ret__: CtOption<Self>)
 //@+
-    requires self.wf()
+    // size: the Bernstein-Yang inverter computes its iteration count in u32 (overflow beyond SG_BOXED_MAX_SAT() = 1_369_567 limbs)
+    requires self.wf(), self.params.modulus.0.nl() <= SG_BOXED_MAX_SAT()
     ensures bmf_invert_post(self, ret__)
 //@-
 {
@@ -114,7 +96,7 @@ pub fn invert_vartime(&self) -> (ret__: CtOption<Self>)
 impl Invert for BoxedMontyForm {
 //@+
     type Output = CtOption<Self>;
-    open spec fn invert_vartime_req(&self) -> bool { self.wf() }
+    open spec fn invert_vartime_req(&self) -> bool { self.wf() && self.params.modulus.0.nl() <= SG_BOXED_MAX_SAT() }
     open spec fn invert_vartime_ens(&self, r: CtOption<Self>) -> bool { bmf_invert_post(self, r) }
 //@-
 fn invert_vartime(&self) -> (ret__: Self::Output)
